@@ -25,6 +25,7 @@ structure SameBut (env env' : Env) (n : Nat) (okFound : Bool) (okAt : Int → Bo
   ext : env'.ext = env.ext
   rules : env'.rules = env.rules
   disabled : env'.disabled = env.disabled
+  fops : env'.fops = env.fops
   other : ∀ m, m ≠ n → env'.strs.getD m [] = env.strs.getD m []
   found : okFound = true → (env'.strs.getD n []).isEmpty = (env.strs.getD n []).isEmpty
   at_ : ∀ x, okAt x = true → ((env'.strs.getD n []).any fun m => m.1 == x) = ((env.strs.getD n []).any fun m => m.1 == x)
@@ -55,6 +56,7 @@ theorem sameBut_restrictAt (env : Env) (n : Nat) (k : Int) :
   ext := rfl
   rules := rfl
   disabled := rfl
+  fops := rfl
   other := fun m hm => by rw [restrictAt_getD]; simp [hm]
   found := fun h => by cases h
   at_ := fun x hx => by
@@ -70,6 +72,7 @@ theorem sameBut_firstOnly (env : Env) (n : Nat) : SameBut env (firstOnly env n) 
   ext := rfl
   rules := rfl
   disabled := rfl
+  fops := rfl
   other := fun m hm => by rw [firstOnly_getD]; simp [hm]
   found := fun _ => by
     rw [firstOnly_getD]
@@ -203,13 +206,13 @@ theorem agree {env env' : Env} {n : Nat} {okFound : Bool} {okAt : Int → Bool} 
     simp only [eval, agree S e cn l hc h, S.blocks]
   | .neg e, cn, l, hc, h => by
     simp only [usesOk] at h
-    simp only [eval, agree S e cn l hc h]
+    simp only [eval, S.fops, agree S e cn l hc h]
   | .bnot e, cn, l, hc, h => by
     simp only [usesOk] at h
     simp only [eval, agree S e cn l hc h]
   | .arith op a b, cn, l, hc, h => by
     simp only [usesOk, Bool.and_eq_true] at h
-    simp only [eval, agree S a cn l hc h.1, agree S b cn l hc h.2]
+    simp only [eval, S.fops, agree S a cn l hc h.1, agree S b cn l hc h.2]
   | .found s, cn, l, hc, h => by
     simp only [usesOk] at h
     simp only [eval, isEmpty_matchesOf S l cn hc s h]
@@ -230,7 +233,7 @@ theorem agree {env env' : Env} {n : Nat} {okFound : Bool} {okAt : Int → Bool} 
     simp only [eval, matchesOf_other S l cn hc s h.1.1, agree S lo cn l hc h.1.2, agree S hi cn l hc h.2]
   | .cmp op a b, cn, l, hc, h => by
     simp only [usesOk, Bool.and_eq_true] at h
-    simp only [eval, agree S a cn l hc h.1, agree S b cn l hc h.2]
+    simp only [eval, S.fops, agree S a cn l hc h.1, agree S b cn l hc h.2]
   | .strop op a b, cn, l, hc, h => by
     simp only [usesOk, Bool.and_eq_true] at h
     simp only [eval, agree S a cn l hc h.1, agree S b cn l hc h.2]
